@@ -6,7 +6,7 @@
   The core is that `validate_uncompressed_name` (model, C14) and the executable spec decoder for
   uncompressed names (`specDecodeUncompressed`, fuel-based) agree on acceptance and length.
 -/
-import QV.Proofs.ServerScan
+import QV.Proofs.ScanRefine
 
 namespace QV.ServerScan
 open QV QV.Wire QV.Reader
